@@ -357,3 +357,16 @@ func init() {
 		return SVal{T: BoolT(re.MatchString(qs))}
 	}
 }
+
+
+func init() {
+	// cbrow(): the row most recently delivered to the ResultFunc of the sqlitex.Execute in progress / just finished
+	specBuiltins["cbrow"] = func(env *SpecEnv, e *Expr) SVal { return SVal{T: env.st.G("cbRow")} }
+}
+
+func init() {
+	specBuiltins["uuidnil"] = func(env *SpecEnv, e *Expr) SVal {
+		declareSort(sortUUID)
+		return SVal{T: Const("uuid_nil", sortUUID)}
+	}
+}
